@@ -18,5 +18,6 @@ CONSTANTS
     HonourAllowInvalid = TRUE
     RenameBeforeCommit = TRUE
     CleanupScansTemps = TRUE
+    RestoreMkdirOnlyIfParentMissing = FALSE
 SPECIFICATION MonSpec
 CHECK_DEADLOCK FALSE
